@@ -83,7 +83,7 @@ def teardown(ctx):
     contracts.detach_all()
 
 
-def make(ctx, rng, kind, units=1.0, pipeline=False):
+def make(ctx, rng, kind, units=1.0, pipeline=False, degenerate=False):
     aa = ctx.aa
     H, W = int(rng.integers(3, 9)), int(rng.integers(3, 10))
     for _ in range(20):
@@ -93,10 +93,25 @@ def make(ctx, rng, kind, units=1.0, pipeline=False):
     else:
         m = np.zeros((3, 3), bool)
         fam = "all_unmasked"
+    if degenerate:
+        # the smallest inputs: one unmasked pixel, or one row / one column of unmasked pixels that the source plane keeps on a line
+        # (zero extent along one or both axes of the source-plane grid)
+        dg = ("one_pixel", "one_row", "one_column")[int(rng.integers(3))]
+        m = np.ones((H, W), bool)
+        if dg == "one_pixel":
+            m[int(rng.integers(H)), int(rng.integers(W))] = False
+        elif dg == "one_row":
+            m[int(rng.integers(H)), :] = False
+        else:
+            m[:, int(rng.integers(W))] = False
+        fam = "degenerate:" + dg
     ps, origin = gen.mild_scales_origin(rng)
     mask = aa.Mask2D(mask=m.copy(), pixel_scales=ps, origin=origin)
     n = int((~m).sum())
-    if rng.random() < 0.35:
+    if degenerate:
+        subs = np.ones(n, dtype=int)
+        submode = "uniform"
+    elif rng.random() < 0.35:
         subs = np.full(n, int(rng.integers(1, 5)))
         submode = "uniform"
     else:
@@ -105,6 +120,10 @@ def make(ctx, rng, kind, units=1.0, pipeline=False):
     osamp = aa.OverSamplerUniform(mask=mask, sub_size=aa.Array2D(values=subs.astype(int), mask=mask))
     g = _np(osamp.over_sampled_grid).copy()
     src, dk = gen_aa.distort(rng, g, strength=float(rng.uniform(0.05, 0.4)))
+    if degenerate:
+        # a pure stretch + shift along the axes keeps a row on a line of constant y and a column on a line of constant x
+        src = g * np.array([float(rng.uniform(0.5, 2.0)), float(rng.uniform(0.5, 2.0))]) + rng.normal(size=2)
+        dk = "axis_stretch"
     src = src * units              # the source plane expressed in other units (e.g. radians instead of arc-seconds)
     if kind == "rect" and pipeline:
         # the mapper as the public pipeline builds it: mesh.Rectangular.mapper_grids_from with a border relocator; a third of the
@@ -150,7 +169,8 @@ def run_case(ctx, i):
     # every 4th Delaunay case: source-plane coordinates in other units (interpolation weights are scale free)
     units = float(10.0 ** rng.uniform(-7, 2)) if (kind == "del" and i % 8 == 5) else 1.0
     pipeline = (kind == "rect" and i % 8 == 2)
-    ok, c = ctx.guarded("mapper.construct", lambda: make(ctx, rng, kind, units, pipeline))
+    degenerate = (kind == "rect" and i % 16 == 4)
+    ok, c = ctx.guarded("mapper.construct", lambda: make(ctx, rng, kind, units, pipeline, degenerate))
     if not ok:
         return
     mp, src, subs, m = c["mapper"], c["src"], c["subs"], c["m"]
